@@ -476,7 +476,7 @@ def main():
     ck.assumptions = ['exact reals for the grid structure; rounded-real (delta) model |d| <= 2^-53 per operation for the binary64 claims',
                       'delta model ranges: 1e-3 <= df <= 1e9, fch1/df <= 1e12, 0 <= j <= 2^24 (results in the normal range)',
                       'nearest-channel claim on concrete dyadic geometries (symbolic df makes (f-fmin)/df non-linear)']
-    sizes = [(1, 1), (2, 3), (3, 8)] if not ck.thorough else [(1, 1), (2, 3), (3, 8), (4, 5), (8, 8)]
+    sizes = [(1, 1), (2, 3), (3, 8)] if not ck.thorough else [(1, 1), (2, 3), (3, 8), (4, 5), (8, 8), (6, 16), (16, 4), (1, 32)]
     ck.bounds = dict(shapes=sizes, routes=ROUTES, geometries='symbolic df,dt,fch1 + dyadic g1,g2,g3')
     jobs = []
     for (T, Fc) in sizes:
